@@ -1,5 +1,5 @@
 // auto-generated: "lalrpop 0.23.1"
-// sha3: be6fa63430dae5a71ecc185be69aabfb5e2d2a18a97244b14e9023e32e46c3eb
+// sha3: 3b6aa48bf7b83089bac0291704d32470997f4f1008eb9ca9e2b2d6a87b76b158
 use crate::rt::*;
 #[allow(unused_extern_crates)]
 extern crate lalrpop_util as __lalrpop_util;
@@ -728,76 +728,66 @@ fn __action1<
 fn __action2<
 >(
     (_, l, _): (i64, i64, i64),
-    (_, pL0, _): (i64, i64, i64),
     (_, r, _): (i64, i64, i64),
 ) -> Tree
 {
-    { probe("Ss#0", 0, 'L', pL0); node("Ss#0", l, r, vec![]) }
+    node("Ss#0", l, r, vec![])
 }
 
 #[allow(clippy::too_many_arguments, clippy::needless_lifetimes, clippy::just_underscores_and_digits, clippy::extra_unused_type_parameters)]
 fn __action3<
 >(
     (_, l, _): (i64, i64, i64),
-    (_, pL0, _): (i64, i64, i64),
     (_, c0, _): (i64, Tree, i64),
     (_, c1, _): (i64, Tree, i64),
     (_, r, _): (i64, i64, i64),
 ) -> Tree
 {
-    { probe("Ss#1", 0, 'L', pL0); node("Ss#1", l, r, vec![Tree::from(c0), Tree::from(c1)]) }
+    node("Ss#1", l, r, vec![Tree::from(c0), Tree::from(c1)])
 }
 
 #[allow(clippy::too_many_arguments, clippy::needless_lifetimes, clippy::just_underscores_and_digits, clippy::extra_unused_type_parameters)]
 fn __action4<
 >(
     (_, l, _): (i64, i64, i64),
-    (_, pR0, _): (i64, i64, i64),
     (_, c0, _): (i64, Tok, i64),
     (_, c1, _): (i64, Tok, i64),
     (_, c2, _): (i64, Tree, i64),
     (_, c3, _): (i64, Tok, i64),
-    (_, pR4, _): (i64, i64, i64),
     (_, r, _): (i64, i64, i64),
 ) -> Tree
 {
-    { probe("St#0", 0, 'R', pR0); probe("St#0", 4, 'R', pR4); node("St#0", l, r, vec![Tree::from(c0), Tree::from(c1), Tree::from(c2), Tree::from(c3)]) }
+    node("St#0", l, r, vec![Tree::from(c0), Tree::from(c1), Tree::from(c2), Tree::from(c3)])
 }
 
 #[allow(clippy::too_many_arguments, clippy::needless_lifetimes, clippy::just_underscores_and_digits, clippy::extra_unused_type_parameters)]
 fn __action5<
 >(
     (_, l, _): (i64, i64, i64),
-    (_, pL0, _): (i64, i64, i64),
     (_, c0, _): (i64, Tok, i64),
-    (_, pL1, _): (i64, i64, i64),
     (_, c1, _): (i64, Tree, i64),
     (_, c2, _): (i64, Tok, i64),
     (_, r, _): (i64, i64, i64),
 ) -> Tree
 {
-    { probe("St#1", 0, 'L', pL0); probe("St#1", 1, 'L', pL1); node("St#1", l, r, vec![Tree::from(c0), Tree::from(c1), Tree::from(c2)]) }
+    node("St#1", l, r, vec![Tree::from(c0), Tree::from(c1), Tree::from(c2)])
 }
 
 #[allow(clippy::too_many_arguments, clippy::needless_lifetimes, clippy::just_underscores_and_digits, clippy::extra_unused_type_parameters)]
 fn __action6<
 >(
     (_, l, _): (i64, i64, i64),
-    (_, pL0, _): (i64, i64, i64),
     (_, c0, _): (i64, Tok, i64),
-    (_, pL1, _): (i64, i64, i64),
     (_, c1, _): (i64, Tok, i64),
     (_, c2, _): (i64, Tree, i64),
     (_, c3, _): (i64, Tok, i64),
     (_, c4, _): (i64, Tree, i64),
-    (_, pR5, _): (i64, i64, i64),
     (_, c5, _): (i64, Tok, i64),
-    (_, pL6, _): (i64, i64, i64),
     (_, c6, _): (i64, Tree, i64),
     (_, r, _): (i64, i64, i64),
 ) -> Tree
 {
-    { probe("St#2", 0, 'L', pL0); probe("St#2", 1, 'L', pL1); probe("St#2", 5, 'R', pR5); probe("St#2", 6, 'L', pL6); node("St#2", l, r, vec![Tree::from(c0), Tree::from(c1), Tree::from(c2), Tree::from(c3), Tree::from(c4), Tree::from(c5), Tree::from(c6)]) }
+    node("St#2", l, r, vec![Tree::from(c0), Tree::from(c1), Tree::from(c2), Tree::from(c3), Tree::from(c4), Tree::from(c5), Tree::from(c6)])
 }
 
 #[allow(clippy::too_many_arguments, clippy::needless_lifetimes, clippy::just_underscores_and_digits, clippy::extra_unused_type_parameters)]
@@ -923,21 +913,13 @@ fn __action14<
 {
     let __start0 = __0.0.clone();
     let __end0 = __0.0.clone();
-    let __start1 = __0.0.clone();
-    let __end1 = __0.0.clone();
     let __temp0 = __action10(
         &__start0,
         &__end0,
     );
     let __temp0 = (__start0, __temp0, __end0);
-    let __temp1 = __action10(
-        &__start1,
-        &__end1,
-    );
-    let __temp1 = (__start1, __temp1, __end1);
     __action2(
         __temp0,
-        __temp1,
         __0,
     )
 }
@@ -953,21 +935,13 @@ fn __action15<
 {
     let __start0 = __0.0.clone();
     let __end0 = __0.0.clone();
-    let __start1 = __0.0.clone();
-    let __end1 = __0.0.clone();
     let __temp0 = __action10(
         &__start0,
         &__end0,
     );
     let __temp0 = (__start0, __temp0, __end0);
-    let __temp1 = __action10(
-        &__start1,
-        &__end1,
-    );
-    let __temp1 = (__start1, __temp1, __end1);
     __action3(
         __temp0,
-        __temp1,
         __0,
         __1,
         __2,
@@ -978,13 +952,11 @@ fn __action15<
     clippy::just_underscores_and_digits, clippy::clone_on_copy, clippy::unit_arg)]
 fn __action16<
 >(
-    __0: (i64, i64, i64),
+    __0: (i64, Tok, i64),
     __1: (i64, Tok, i64),
-    __2: (i64, Tok, i64),
-    __3: (i64, Tree, i64),
-    __4: (i64, Tok, i64),
-    __5: (i64, i64, i64),
-    __6: (i64, i64, i64),
+    __2: (i64, Tree, i64),
+    __3: (i64, Tok, i64),
+    __4: (i64, i64, i64),
 ) -> Tree
 {
     let __start0 = __0.0.clone();
@@ -1001,8 +973,6 @@ fn __action16<
         __2,
         __3,
         __4,
-        __5,
-        __6,
     )
 }
 
@@ -1018,30 +988,14 @@ fn __action17<
 {
     let __start0 = __0.0.clone();
     let __end0 = __0.0.clone();
-    let __start1 = __0.0.clone();
-    let __end1 = __0.0.clone();
-    let __start2 = __0.2.clone();
-    let __end2 = __1.0.clone();
     let __temp0 = __action10(
         &__start0,
         &__end0,
     );
     let __temp0 = (__start0, __temp0, __end0);
-    let __temp1 = __action10(
-        &__start1,
-        &__end1,
-    );
-    let __temp1 = (__start1, __temp1, __end1);
-    let __temp2 = __action10(
-        &__start2,
-        &__end2,
-    );
-    let __temp2 = (__start2, __temp2, __end2);
     __action5(
         __temp0,
-        __temp1,
         __0,
-        __temp2,
         __1,
         __2,
         __3,
@@ -1057,54 +1011,28 @@ fn __action18<
     __2: (i64, Tree, i64),
     __3: (i64, Tok, i64),
     __4: (i64, Tree, i64),
-    __5: (i64, i64, i64),
-    __6: (i64, Tok, i64),
-    __7: (i64, Tree, i64),
-    __8: (i64, i64, i64),
+    __5: (i64, Tok, i64),
+    __6: (i64, Tree, i64),
+    __7: (i64, i64, i64),
 ) -> Tree
 {
     let __start0 = __0.0.clone();
     let __end0 = __0.0.clone();
-    let __start1 = __0.0.clone();
-    let __end1 = __0.0.clone();
-    let __start2 = __0.2.clone();
-    let __end2 = __1.0.clone();
-    let __start3 = __6.2.clone();
-    let __end3 = __7.0.clone();
     let __temp0 = __action10(
         &__start0,
         &__end0,
     );
     let __temp0 = (__start0, __temp0, __end0);
-    let __temp1 = __action10(
-        &__start1,
-        &__end1,
-    );
-    let __temp1 = (__start1, __temp1, __end1);
-    let __temp2 = __action10(
-        &__start2,
-        &__end2,
-    );
-    let __temp2 = (__start2, __temp2, __end2);
-    let __temp3 = __action10(
-        &__start3,
-        &__end3,
-    );
-    let __temp3 = (__start3, __temp3, __end3);
     __action6(
         __temp0,
-        __temp1,
         __0,
-        __temp2,
         __1,
         __2,
         __3,
         __4,
         __5,
         __6,
-        __temp3,
         __7,
-        __8,
     )
 }
 
@@ -1224,35 +1152,19 @@ fn __action24<
     __3: (i64, Tok, i64),
 ) -> Tree
 {
-    let __start0 = __0.0.clone();
-    let __end0 = __0.0.clone();
-    let __start1 = __3.2.clone();
-    let __end1 = __3.2.clone();
-    let __start2 = __3.2.clone();
-    let __end2 = __3.2.clone();
+    let __start0 = __3.2.clone();
+    let __end0 = __3.2.clone();
     let __temp0 = __action9(
         &__start0,
         &__end0,
     );
     let __temp0 = (__start0, __temp0, __end0);
-    let __temp1 = __action9(
-        &__start1,
-        &__end1,
-    );
-    let __temp1 = (__start1, __temp1, __end1);
-    let __temp2 = __action9(
-        &__start2,
-        &__end2,
-    );
-    let __temp2 = (__start2, __temp2, __end2);
     __action16(
-        __temp0,
         __0,
         __1,
         __2,
         __3,
-        __temp1,
-        __temp2,
+        __temp0,
     )
 }
 
@@ -1293,30 +1205,22 @@ fn __action26<
     __6: (i64, Tree, i64),
 ) -> Tree
 {
-    let __start0 = __4.2.clone();
-    let __end0 = __5.0.clone();
-    let __start1 = __6.2.clone();
-    let __end1 = __6.2.clone();
+    let __start0 = __6.2.clone();
+    let __end0 = __6.2.clone();
     let __temp0 = __action9(
         &__start0,
         &__end0,
     );
     let __temp0 = (__start0, __temp0, __end0);
-    let __temp1 = __action9(
-        &__start1,
-        &__end1,
-    );
-    let __temp1 = (__start1, __temp1, __end1);
     __action18(
         __0,
         __1,
         __2,
         __3,
         __4,
-        __temp0,
         __5,
         __6,
-        __temp1,
+        __temp0,
     )
 }
 
